@@ -115,6 +115,11 @@ class _mpf(mpnumeric):
         if isinstance(x, rational.mpq):
             p, q = x._mpq_
             return from_rational(p, q, *cls.context._prec_rounding)
+        if isinstance(x, _constant) and x.context is not cls.context \
+            and not x.contextual:
+            # (a lazy constant of another context is evaluated in this one,
+            # as by the constructor and by convert)
+            return x.func(*cls.context._prec_rounding)
         if hasattr(x, '_mpf_'): return x._mpf_
         if hasattr(x, '_mpmath_'):
             t = cls.context.convert(x._mpmath_(*cls.context._prec_rounding))
@@ -177,7 +182,7 @@ class _mpf(mpnumeric):
         return v
 
     def _cmp(s, t, func):
-        if hasattr(t, '_mpf_'):
+        if hasattr(t, '_mpf_') and not isinstance(t, _constant):
             t = t._mpf_
         else:
             t = s.mpf_convert_rhs(t)
@@ -249,6 +254,8 @@ def %NAME%(self, other):
     sval = self._mpf_
     if hasattr(other, '_mpf_'):
         tval = other._mpf_
+        if isinstance(other, _constant) and other.context is not mpf.context:
+            tval = mpf.mpf_convert_rhs(other)
         %WITH_MPF%
     ttype = type(other)
     if ttype in int_types:
@@ -898,6 +905,8 @@ class PythonMPContext(object):
             reval = imval = 0
             if hasattr(term, "_mpf_"):
                 reval = term._mpf_
+                if isinstance(term, _constant) and term.context is not ctx:
+                    reval = ctx.mpf.mpf_convert_rhs(term)
             elif hasattr(term, "_mpc_"):
                 reval, imval = term._mpc_
             else:
